@@ -47,16 +47,12 @@ def run(chk, repo):
     wr = repo.func('circ.CircRNA:CircRNAModel.to_string')
     rd = repo.func('circ.io:line_to_circ_model')
     chk.uses(wr, rd)
-    info = None
-    join = None
-    for n in walk_no_nested(wr.node):
-        if isinstance(n, ast.Assign) and unparse(n.targets[0]) == 'info':
-            info = fstring_text(n.value)
-        if isinstance(n, ast.Return) and isinstance(n.value, ast.Call) and call_name(n.value) == 'join':
-            join = [unparse(e) for e in n.value.args[0].elts]
-    if info is None or join is None:
-        raise AnalysisError(f"anchor={wr.qual}: info f-string / join not found")
-    wkeys = re.findall(r'(?:^|;)([A-Z_]+)=', info)
+    from rules.shared import circ_writer
+    cw = circ_writer(repo, wr)
+    wcols, winfo, anchor, anchor_core, off, ln = cw['cols'], cw['info'], cw['anchor'], cw['anchor_core'], cw['off'], cw['len']
+    wkeys = list(winfo)
+    join = [c.text for c in wcols]
+    colval = cw['colval']
     rkeys = set()
     for n in ast.walk(rd.node):
         if isinstance(n, ast.Subscript) and unparse(n.value) == 'attrs' and isinstance(n.slice, ast.Constant):
@@ -74,7 +70,7 @@ def run(chk, repo):
             special |= set(str_consts(n.comparators[0]))
     chk.ob('C13.a', 'typed keys (list-valued) are writer keys', rd.where, special <= set(wkeys) and {'OFFSET', 'LENGTH', 'INTRON'} <= special,
            f"reader special-cases {sorted(special)}", key='circ.io::typed-keys', fn=rd.qual)
-    cols_ok = len(join) == 8 and join[0] == 'gene_id' and join[1] == 'start' and join[2] == 'circ_id' and join[7] == 'info'
+    cols_ok = len(join) == 8 and colval(0) == 'self.gene_id' and anchor_core == 'self.fragments[0].location.start' and colval(2) == 'self.id'
     ridx = {unparse(n.targets[0]): unparse(n.value) for n in walk_no_nested(rd.node) if isinstance(n, ast.Assign) and 'fields[' in unparse(n.value)}
     cols_ok = cols_ok and ridx.get('gene_id') == 'fields[0]' and ridx.get('start') == 'int(fields[1])' and ridx.get('circ_id') == 'fields[2]' \
         and any('fields[7]' in unparse(n) for n in ast.walk(rd.node) if isinstance(n, ast.For))
@@ -85,12 +81,6 @@ def run(chk, repo):
     from sa.affine import Path as APath
     p = APath()
     p.env['start'] = Aff.sym('F0')
-    off = ln = None
-    for n in ast.walk(wr.node):
-        if isinstance(n, ast.Call) and call_name(n) == 'append' and unparse(n.func.value) == 'offset':
-            off = it.ev(p, n.args[0].args[0])
-        if isinstance(n, ast.Call) and call_name(n) == 'append' and unparse(n.func.value) == 'length':
-            ln = it.ev(p, n.args[0].args[0])
     q = APath()
     q.env.update({'start': Aff.sym('F0'), 'position': off, 'length': ln})
     sj = ej = None
@@ -108,7 +98,7 @@ def run(chk, repo):
         if len(fl_) == 1 and kwarg(fl_[0], 'start') is not None and kwarg(fl_[0], 'end') is not None:
             sj, ej = it.ev(q, kwarg(fl_[0], 'start')), it.ev(q, kwarg(fl_[0], 'end'))
     ok = sj == Aff.sym('fragment.location.start') and ej == Aff.sym('fragment.location.end')
-    w0 = [norm_stmt(s) for s in sorted((n for n in walk_no_nested(wr.node) if isinstance(n, ast.Assign) and unparse(n.targets[0]) == 'start'), key=lambda n: n.lineno)] == ['start = int(self.fragments[0].location.start)', 'start = str(start)']
+    w0 = anchor_core == 'self.fragments[0].location.start'
     chk.ob('C13.a', 'reader(start + OFFSET, + LENGTH) inverts writer(fragment - start, end - start)', rd.where, ok and w0,
            f"reader rebuilds [{sj!r}, {ej!r}) from writer offset {off!r} / length {ln!r} (anchor = first fragment start: {w0})",
            key='circ.io::offset-algebra', fn=rd.qual)
@@ -145,12 +135,23 @@ def run(chk, repo):
                 outs.append(o)
         return outs
 
+    from sa.peval import Tmpl as _Tmpl
+
     def writer_item(position):
+        """(key text, value text) of the `KEY=value` pieces of the string VariantRecord.info returns (one generic attribute)"""
         vals = set()
         for o in one_item(inf, position):
-            for ef in o.effects:
-                if ef[0] == 'aug' and ef[2] == 'Add':
-                    vals.add(_show(ef[3]))
+            if o.kind != 'return' or '<loop not entered>' in o.assumed:
+                continue
+            if not isinstance(o.value, _Tmpl):
+                return None
+            for piece in o.value.split(';'):
+                if not piece.parts:
+                    continue
+                kv = piece.split('=')
+                if len(kv) != 2 or kv[0].single() is None or kv[1].single() is None:
+                    return None
+                vals.add((_show(kv[0].single()), _show(kv[1].single())))
         return vals
 
     def reader_item(position):
@@ -161,14 +162,14 @@ def run(chk, repo):
                     vals.add((_show(ef[2]), _show(ef[3])))
         return vals
     wp, wn = writer_item(True), writer_item(False)
-    # f'{key.upper()}={value};' : the value written for a position attribute is str(int(v) + 1) where v is what is written otherwise
-    def w_val(t):
-        m_ = re.match(r"^f'\{(.+?)\}=\{(.+)\};'$", t)
-        return (m_.group(1), m_.group(2)) if m_ else (None, None)
+    # KEY=value pieces: the value written for a position attribute is str(int(v) + 1) where v is what is written otherwise
+    if wp is None or wn is None:
+        chk.undecided('C13.b', 'INFO writer', inf.where, 'VariantRecord.info does not evaluate to a `;`-separated template of KEY=value pieces')
+        wp, wn = set(), set()
     okw = len(wp) == 1 and len(wn) == 1
     wkey = None
     if okw:
-        (k1, v1), (k0, v0) = w_val(next(iter(wp))), w_val(next(iter(wn)))
+        (k1, v1), (k0, v0) = next(iter(wp)), next(iter(wn))
         wkey = k1
         okw = k1 is not None and k1 == k0 and v0 is not None and re.sub(r'\s', '', v1) == re.sub(r'\s', '', f"str(int({v0}) + 1)")
     chk.ob('C13.b', 'writer shifts exactly constant.ATTRS_POSITION by +1', inf.where, okw,
